@@ -284,7 +284,7 @@ var ctxBackground = backgroundCtx()
 // c01Rec (one per waiter, around the shared schedule) records the last token its waiter drew.
 type c01Rec struct {
 	core.Schedule
-	mu sync.Mutex // nosim
+	mu simrt.HMutex
 	l  time.Time
 }
 
